@@ -370,7 +370,16 @@ class NN:
         return c, norm
 
     def summary(self, q):
-        return self.A.summary(q)
+        """Summaries as the neighbour-search rules read them: assertions are taken to hold (see Summary.assuming_assertions)."""
+        if not hasattr(self, "_views"):
+            self._views = {}
+        if q not in self._views:
+            s = self.A.summary(q)
+            v = s.assuming_assertions()
+            if v is not s:
+                self.r.rep.assume("assertions in pyrepseq.nn are taken to hold (a failing assert raises AssertionError; it cannot silently change the reported pairs)")
+            self._views[q] = v
+        return self._views[q]
 
     # ---- dictionaries of positions
     def map_info(self, q, m):
